@@ -500,6 +500,50 @@ def mutating_args_part(ctx):
     return n
 
 
+def factory_closures_part(ctx):
+    """Cacheable nodes made by ONE factory (same source text) that capture different values are different definitions: an entry
+    written by one is never served to another; and a cached value handed to a consumer that mutates it is still the computed
+    value on the next hit."""
+    from hypergraph import Graph, SyncRunner, InMemoryCache
+    from hypergraph.nodes import FunctionNode
+    rng = ctx.rng
+    n = 0
+    for _ in range(ctx.n(25, 300)):
+        def make(k, scale):
+            def f(x, m=scale):
+                return x * m + k
+            return FunctionNode(f, name="f", output_name="y", cache=True)
+        runner = SyncRunner(cache=InMemoryCache())
+        ks = [(rng.randint(0, 3), rng.randint(1, 2)) for _j in range(rng.randint(2, 4))]
+        x = rng.randint(0, 3)
+        for (k, scale) in ks:
+            got = runner.run(Graph([make(k, scale)]), {"x": x}).values
+            n += 1
+            if got != {"y": x * scale + k}:
+                ctx.violation("oracle", f"node made by make(k={k}, scale={scale}) on x={x}: cached run returned {got}, the function computes {x * scale + k} "
+                              f"(an entry written by another closure of the same factory was served)", case={"ks": ks, "x": x})
+                break
+        # a cached mutable output handed to a mutating consumer
+        def mk_list(nn):
+            return list(range(nn))
+
+        def consume(lst):
+            lst.append(99)
+            return sum(lst)
+        G = Graph([FunctionNode(mk_list, name="mk_list", output_name="lst", cache=True), FunctionNode(consume, name="consume", output_name="s")])
+        r2 = SyncRunner(cache=InMemoryCache())
+        nn = rng.randint(1, 4)
+        want = SyncRunner().run(G, {"nn": nn}).values["s"]
+        for j in range(rng.randint(2, 3)):
+            got = r2.run(G, {"nn": nn}).values["s"]
+            n += 1
+            if got != want:
+                ctx.violation("oracle", f"run #{j + 1} with a cache: consume(lst) returned {got}, the uncached run {want} (the cached list is the object an "
+                              f"earlier consumer mutated)", case={"nn": nn, "run": j + 1})
+                break
+    return n
+
+
 def container_part(ctx):
     """An entry is never served for different arguments: arguments that differ only in container type or ordering
     (dict vs list of its items, set vs sorted list, dicts in another insertion order) are different arguments."""
@@ -534,7 +578,7 @@ def run(ctx):
     n1, t1 = lru_part(ctx, batch, N)
     n2, t2 = disk_part(ctx, batch, N)
     n3, t3 = program_part(ctx)
-    n4 = same_definition_part(ctx) + container_part(ctx) + same_gate_function_part(ctx) + mutating_args_part(ctx)
+    n4 = same_definition_part(ctx) + container_part(ctx) + same_gate_function_part(ctx) + mutating_args_part(ctx) + factory_closures_part(ctx)
     res = batch.run()
     if res["error"]:
         ctx.violation("harness", res["error"])
